@@ -283,6 +283,7 @@ func (cl *Client) NextPacketID() (i uint32, err error) {
 	i = atomic.LoadUint32(&cl.State.packetID)
 	started := i
 	overflowed := false
+	verifPoint("nextid.inside") // schedule point inside the allocator's critical section (verif build tag)
 	for {
 		if overflowed && i == started {
 			return 0, packets.ErrQuotaExceeded
